@@ -820,7 +820,7 @@ func (fr *frame) runArm(succ, J *ssa.BasicBlock, resume bool) (ok bool) {
 		in.inMerge = savedIn - 1
 		in.mergeDepth--
 		if p := recover(); p != nil {
-			if pe, isPE := p.(pathEnd); isPE {
+			if pe, isPE := p.(pathEnd); isPE && pe.kind != "infeasible" {
 				panic(pe)
 			}
 			if in.ex != nil && in.ex.Cfg.Trace {
